@@ -42,6 +42,8 @@ func main() {
 		os.Exit(checkMain(os.Args[2:]))
 	case "replay":
 		os.Exit(replayMain(os.Args[2:]))
+	case "trace":
+		os.Exit(traceMain(os.Args[2:]))
 	case "gen-golden":
 		os.Exit(goldenMain(os.Args[2:]))
 	default:
